@@ -39,8 +39,9 @@ def sh(cmd, timeout=None, cwd=None, env=None, input=None):
         return None, (ex.stdout or b"").decode("utf-8", "replace")
 
 
-def compile_cmd(cell, srcs, out=None, includes=(), defines=(), opt="-O0", syntax_only=False, extra=()):
-    cmd = [cell[0], "-std=" + cell[1], opt, "-g0", "-w", "-I" + repo.SBEPP_SRC, "-I" + CXXDIR]
+def compile_cmd(cell, srcs, out=None, includes=(), defines=(), opt="-O0", syntax_only=False, extra=(), nowarn=True):
+    # -w also turns the *required* narrowing diagnostics of gcc into nothing: checks that decide "compiles" pass nowarn=False
+    cmd = [cell[0], "-std=" + cell[1], opt, "-g0"] + (["-w"] if nowarn else []) + ["-I" + repo.SBEPP_SRC, "-I" + CXXDIR]
     if cell[0] == "clang++":
         cmd += ["-ferror-limit=5"]
     else:
@@ -57,9 +58,9 @@ def compile_cmd(cell, srcs, out=None, includes=(), defines=(), opt="-O0", syntax
     return cmd
 
 
-def build(cell, srcs, out, includes=(), defines=(), opt="-O0", extra=(), timeout=900):
+def build(cell, srcs, out, includes=(), defines=(), opt="-O0", extra=(), timeout=900, nowarn=True):
     """compile+link; -> (ok, log)"""
-    cmd = compile_cmd(cell, srcs, out + ".tmp", includes, defines, opt, False, extra)
+    cmd = compile_cmd(cell, srcs, out + ".tmp", includes, defines, opt, False, extra, nowarn)
     rc, log = sh(cmd, timeout=timeout)
     if rc == 0:
         os.replace(out + ".tmp", out)
@@ -67,8 +68,8 @@ def build(cell, srcs, out, includes=(), defines=(), opt="-O0", extra=(), timeout
     return False, log
 
 
-def syntax(cell, src, includes=(), defines=(), extra=(), timeout=600):
-    rc, log = sh(compile_cmd(cell, [src], None, includes, defines, "-O0", True, extra), timeout=timeout)
+def syntax(cell, src, includes=(), defines=(), extra=(), timeout=600, nowarn=True):
+    rc, log = sh(compile_cmd(cell, [src], None, includes, defines, "-O0", True, extra, nowarn), timeout=timeout)
     return rc == 0, log
 
 
